@@ -60,7 +60,7 @@ def writes(b, only=None):
             if st["s"] != "assign":
                 continue
             lhs = st["lhs"]
-            if lhs["p"] and lhs["p"][0] != "*" and (only is None or lhs["l"] in only) and lhs["l"] > b.arg_count:
+            if lhs["p"] and lhs["p"][0] != "*" and (only is None or lhs["l"] in only) and lhs["l"] >= 1:
                 f = next((e.get("f") for e in lhs["p"] if isinstance(e, dict) and "f" in e), "?")
                 out.setdefault(name_of(lhs["l"]), set()).add("<store .%s>" % f)
             if st["rv"]["r"] == "ref" and st["rv"].get("bk") == "mut":
@@ -97,7 +97,7 @@ def unconfirmed(b):
     out = {}
     if not byname:
         return out
-    for l in range(b.arg_count + 1, len(b.locals)):
+    for l in range(1, len(b.locals)):   # by-value parameters included: `fn f(mut self) { self.v.clear(); .. }`
         nm = b.debug_names.get(l) or "<temp>"
         extra = sorted(set(byname.get(nm, [])) - set(conf.get(nm, [])))
         if extra:
